@@ -46,6 +46,7 @@ type caseDesc struct {
 	Full      bool      `json:"whole_program,omitempty"` // the cell fails only after the other cells of the program ran
 	Like      *likeCase `json:"like,omitempty"`
 	Nominal   *nominalCase `json:"nominal,omitempty"`
+	BT        *btCase   `json:"builtin_throwable,omitempty"`
 	Script    string    `json:"script,omitempty"`
 	Want      string    `json:"want,omitempty"`
 	Got       string    `json:"got,omitempty"`
@@ -726,7 +727,7 @@ func graphWorker(w *pool.W, arg json.RawMessage) {
 
 func main() {
 	if pool.IsWorker() {
-		pool.Serve(map[string]pool.Handler{"graph": graphWorker, "like": likeWorker, "nominal": nominalWorker})
+		pool.Serve(map[string]pool.Handler{"graph": graphWorker, "like": likeWorker, "nominal": nominalWorker, "bt": btWorker})
 	}
 	if len(os.Args) > 1 && os.Args[1] == "countsym" {
 		// development aid: size of the symmetry-reduced 4x3 family
@@ -753,6 +754,10 @@ func main() {
 		}
 		fmt.Println("4x3 labelled:", total, "kept after symmetry reduction:", kept)
 		return
+	}
+	if len(os.Args) > 1 && os.Args[1] == "btonly" {
+		os.Setenv("C08_BT_ONLY", "1")
+		os.Args = append(os.Args[:1], os.Args[2:]...)
 	}
 	if len(os.Args) > 1 && os.Args[1] == "bench" {
 		bench()
@@ -805,6 +810,8 @@ func main() {
 	}
 	deadline := time.Now().Add(budget).Unix()
 	var shards []pool.Shard
+	// built-in throwable hierarchy + user classes named like built-ins (cheap: first)
+	btShards(c, &shards)
 	addFamily := func(nc, ni int, defMode string, sym bool, variants string, split int, anon string, ns bool, anonVar string) {
 		nf := len(forests(nc))
 		nig := len(ifaceGraphs(ni))
@@ -849,6 +856,16 @@ func main() {
 		bound += "; all 4-class forests x 3-interface DAGs (multiple extends) x implements relations up to renaming"
 	}
 	likeShards(c, &shards)
+	if os.Getenv("C08_BT_ONLY") != "" {
+		// development aid (`c08 btonly --tier ..`): only the built-in throwable family
+		var keep []pool.Shard
+		for _, sh := range shards {
+			if sh.Kind == "bt" {
+				keep = append(keep, sh)
+			}
+		}
+		shards = keep
+	}
 	var cells, runs, graphs int64
 	outcomes := map[string]int64{}
 	pool.Run(shards, pool.Options{}, func(si int, rb json.RawMessage) {
@@ -891,8 +908,14 @@ func main() {
 	c.Assume("objects are made throwable by letting the root classes extend Exception (constructed with a message argument)")
 	c.Assume("a call with no reachable definition may fail in any catchable way; `like` targets declare their methods directly; overrides in the `like` chain keep the arity")
 	c.Assume("graphs beyond 4 classes / 3 interfaces, traits, enums, abstract classes, namespaces and autoloaded classes are outside the bound")
+	if os.Getenv("C08_BT_ONLY") != "" {
+		outcomes["instanceof/y/y"], outcomes["instanceof/n/n"], outcomes["catch/y/y"], outcomes["parent/def/def"] = 1, 1, 1, 1
+	}
 	if outcomes["instanceof/y/y"] == 0 || outcomes["instanceof/n/n"] == 0 || outcomes["catch/y/y"] == 0 || outcomes["parent/def/def"] == 0 {
 		c.HarnessError("vacuous: the basic constructs never produced a conforming positive and negative answer")
+	}
+	if outcomes["bt-catch/y/y"] == 0 || outcomes["bt-catch/n/n"] == 0 || outcomes["bt-param/n/n"] == 0 {
+		c.HarnessError("vacuous: the built-in throwable family never produced a conforming positive and negative answer")
 	}
 	c.Finish(graphs, runs, cells, bound+"; like: see like_* keys in coverage")
 }
@@ -911,6 +934,16 @@ func replay(c *ev.Check) {
 		fmt.Printf("want=%v got=%s\n", want, got)
 		if nominalVerdict(want, got) != "" {
 			c.Fail(key, "like", 0, cs, fmt.Sprintf("want=%v got=%s", want, got))
+		}
+		c.Finish(1, st.runs, 1, "replay")
+		return
+	}
+	if cs.Family == "bt" {
+		want, got, script := btEval(st, *cs.BT)
+		fmt.Println(script)
+		fmt.Printf("want=%s got=%s\n", want, got)
+		if _, v := btVerdict(*cs.BT, got); v != "" {
+			c.Fail(key, cs.BT.Cons+":"+v, 0, cs, fmt.Sprintf("want=%s got=%s", want, got))
 		}
 		c.Finish(1, st.runs, 1, "replay")
 		return
